@@ -37,6 +37,12 @@ CHECKS = {
             "a crash is a process killed inside write(2); page-cache / fsync / directory-entry durability are assumptions of FileStore.tla"),
     "C18": (MC, "7.C18", "TLC exhaustive run of Store.tla (3 clients, begin/end steps, injected errors, S3 key mapping; the mis-mapped variants must fail) + recorded Store/Load/concurrent-writer runs on the in-memory, file and S3 backends validated by TLC against TraceStore.tla",
             "S3 is represented by a fake S3Interface recording bucket and key; file errors are injected through a missing base path"),
+    "C08": (MC, "7.C08", "every Persist.Store call of every driven history validated by TLC against TraceC08.tla, which learns the relations name->bytes, node->bytes, bytes->node per configuration and requires them to stay functions; names recomputed by an independent BLAKE2b-256/base64url",
+            "bytes are represented by their digest under the harness's independent implementation; the digest function itself is not transcribed into TLA+ (DESIGN 9)"),
+    "C14": ("translation_validation", "7.C14", "Format.tla is the reference translation of nodes, keys and defaults to bytes, layers and order; TLC (TraceFormat.tla) compares it input by input with frozen vectors of the pinned release and with what the current code writes and returns for generated inputs",
+            "default JSON marshaler for ints / plain ASCII strings / byte slices; integers below 2^31 in node bytes, larger magnitudes for layers via 8-byte limbs"),
+    "C19": ("fault_enumeration", "7.C19", "enumerated perturbations of the root record, the loader configuration and the stored top node driven through the real LoadMast; TLC evaluates MustReject on every event (TraceLoad.tla, layers from Format.tla) and demands an error, not a panic or a tree",
+            "structural decodability is judged by the harness's lenient decoders; nothing is demanded when MustReject does not hold"),
 }
 
 NOT_YET = {
